@@ -28,6 +28,7 @@ type c09Spec struct {
 	D      int      `json:"d"`
 	Word   []string `json:"word,omitempty"`
 	After  bool     `json:"after,omitempty"` // the crop follows a complete winter wheat and is harvested early (before maturity)
+	Self   bool     `json:"self,omitempty"`  // ... follows a complete season of itself instead
 }
 
 // annual main crops of the property (permanent crops and ad-hoc catch-crop sets are not claimed)
@@ -66,6 +67,7 @@ func c09Specs(tier string, seed int) []c09Spec {
 			}
 			// second crop of a rotation, harvested before it matures
 			out = append(out, c09Spec{File: f, Yml: yml, Soil: "loam12", Root: 12, NLevel: 1, CO2: 2, Alpha: alpha[:2], D: 2, After: true})
+			out = append(out, c09Spec{File: f, Yml: yml, Soil: "sand20", Root: 15, NLevel: 1, CO2: 1, Alpha: alpha[:2], D: 2, After: true, Self: true})
 			i++
 		}
 	}
@@ -76,7 +78,7 @@ func init() {
 	mc.Register(&mc.Check{
 		ID:        "C09",
 		Technique: "explicit-state bounded exploration of whole growing seasons on the real run loop: every word of 30-day weather blocks over the growth-critical part of the season for every shipped parameter set of an annual main crop (classic and YAML) x soil/root-limit x N supply x CO2 method; crop-state invariants on every day between sowing and harvest and phenology order from the crop result file",
-		Rule: "scenario = (crop file, format, soil with root limit, N level none/normal/excess, CO2 method 1-3) with all words over the block alphabet (benign seasonal weather elsewhere); every day from sowing to the day before harvest: organ masses, biomass, root mass, LAI, assimilate pool, crop N and N concentrations finite and >= 0, N-stress and transpiration ratio in [0,1], rooting depth <= profile depth and <= the soil's root limit scaled by the crop factor, stage number never decreasing; crop record: sowing <= emergence <= anthesis <= maturity <= harvest on the time axis, and each reported stage day equals the day on which the stage was seen to begin (0 when it never began); the crop is also run as second crop of a rotation and harvested early; " +
+		Rule: "scenario = (crop file, format, soil with root limit, N level none/normal/excess, CO2 method 1-3) with all words over the block alphabet (benign seasonal weather elsewhere); every day from sowing to the day before harvest: organ masses, biomass, root mass, LAI, assimilate pool, crop N and N concentrations finite and >= 0, N-stress and transpiration ratio in [0,1], rooting depth <= profile depth and <= the soil's root limit scaled by the crop factor, stage number never decreasing; crop record: sowing <= emergence <= anthesis <= maturity <= harvest on the time axis, and each reported stage day equals the day on which the stage was seen to begin (0 when it never began); the crop is also run as second crop of a rotation (after winter wheat and after itself) and harvested early; " +
 			"state = (stage, biomass, LAI, rooting depth, N content); non-trivial = day on which a stress factor is below 1 or a bound is reached",
 		Assumptions: []string{"annual main crops: SM SOY SW WW WG WR TR OA WRA WRC K ZR LUP CCM OEL files as shipped (varieties included)", "the soil's root limit enters as round(limit x crop factor / 11), the rule of the model", "slack 1e-12"},
 		Bound: func(t string) string {
@@ -120,7 +122,14 @@ func c09Run(raw json.RawMessage, c *mc.Ctx) {
 		}
 		p = e1Project(b, 720)
 		p.Soil.RootDepth = sp.Root
-		p.Rotation = append(p.Rotation[:1], proj.CropEntry{Crop: "WW", Sow: "2001-10-05", Harvest: "2002-07-25", Rex: 50}, proj.CropEntry{Crop: abbr, Sow: sow, Harvest: har, Rex: 50, Variety: variety}, proj.CropEntry{Crop: "WW", Sow: "2005-10-01", Harvest: "2006-07-30"})
+		first := proj.CropEntry{Crop: "WW", Sow: "2001-10-05", Harvest: "2002-07-25", Rex: 50}
+		if sp.Self {
+			first = proj.CropEntry{Crop: abbr, Sow: "2002-04-15", Harvest: "2002-09-25", Rex: 50, Variety: variety}
+			if c18Winter[abbr] {
+				first.Sow, first.Harvest = "2001-10-05", "2002-07-25"
+			}
+		}
+		p.Rotation = append(p.Rotation[:1], first, proj.CropEntry{Crop: abbr, Sow: sow, Harvest: har, Rex: 50, Variety: variety}, proj.CropEntry{Crop: "WW", Sow: "2005-10-01", Harvest: "2006-07-30"})
 	}
 	p.Config["CO2method"] = fmt.Sprint(sp.CO2)
 	p.Config["CO2concentration"] = []string{"360", "550", "700"}[sp.CO2-1]
